@@ -363,7 +363,8 @@ fn own_result_values(d: &air_interpreter_data::InterpreterData, me: &str) -> BTr
         if let Some(sr) = ci.service_result_store.get(cid) {
             if let Some(t) = ci.tetraplet_store.get(&sr.tetraplet_cid) {
                 if t.peer_pk == me {
-                    *m.entry(sr.value_cid.get_inner().to_string()).or_insert(0) += 1;
+                    // the result together with the call it is recorded at (service, function, argument hash)
+                    *m.entry(format!("{}|{}|{}|{}", sr.value_cid.get_inner(), t.service_id, t.function_name, sr.argument_hash)).or_insert(0) += 1;
                 }
             }
         }
@@ -392,7 +393,7 @@ impl Property for C05 {
         "C05"
     }
     fn rule(&self) -> String {
-        "honest STREAM histories with particles returning to peers, duplicates and late/batched results. After every run on peer P: the ids the host still holds for P are exactly the RequestSentBy(P:id) states of P's data (a requested call is never re-requested under a new id nor forgotten), and the multiset of value CIDs of results attributed to P in P's data equals the multiset of results the host has returned to P so far (each recorded exactly once, never lost). Non-trivial = a particle arrived at a peer that had >= 1 pending request, or a result was returned >= 2 runs after its request; distinct by history hash".into()
+        "honest STREAM histories with particles returning to peers, duplicates and late/batched results. After every run on peer P: the ids the host still holds for P are exactly the RequestSentBy(P:id) states of P's data (a requested call is never re-requested under a new id nor forgotten), and the multiset of (value CID, service, function, argument hash) of results attributed to P in P's data equals the multiset of results the host has returned to P so far, keyed by the request they answer (each recorded exactly once, at the call that requested it, never lost). Non-trivial = a particle arrived at a peer that had >= 1 pending request, or a result was returned >= 2 runs after its request; distinct by history hash".into()
     }
     fn assumptions(&self) -> Vec<String> {
         vec!["result identity is the CID of the value text the host returned (independent CID implementation)".into(), "calls with unused output are only checked for presence (>=), they carry no tetraplet".into()]
@@ -453,9 +454,15 @@ impl Property for C05 {
                     None => continue,
                 };
                 let vcid = crate::model::cid::cid_of(raw.as_bytes());
-                let unused = matches!(r.answered.get(id), Some(_)) && false;
-                let _ = unused;
-                *returned[p].entry(vcid).or_insert(0) += 1;
+                // the call that requested it: service, function and the hash of its argument values
+                let key = match r.answered.get(id) {
+                    Some(q) => {
+                        let args = crate::jsongen::canonical(&serde_json::Value::Array(q.args.clone()));
+                        format!("{}|{}|{}|{}", vcid, q.service, q.function, crate::model::cid::cid_of(args.as_bytes()))
+                    }
+                    None => continue,
+                };
+                *returned[p].entry(key).or_insert(0) += 1;
             }
             if let Ok(reqs) = &r.out.requests {
                 for id in reqs.keys() {
@@ -486,7 +493,8 @@ impl Property for C05 {
                 let have = own.get(vcid).cloned().unwrap_or(0);
                 if have < *n {
                     // maybe (some of) them were unused-output calls
-                    let u = unused.get(vcid).cloned().unwrap_or(0);
+                    let value_only = vcid.split('|').next().unwrap_or("").to_string();
+                    let u = unused.get(&value_only).cloned().unwrap_or(0);
                     let prev_u = returned_unused[p].get(vcid).cloned().unwrap_or(0);
                     if have + (u.saturating_sub(prev_u)).min(*n - have) + 0 >= *n || have + u >= *n {
                         let moved = *n - have;
